@@ -9,7 +9,7 @@ func init() {
 	register(&propDef{
 		id: "C39", title: "Replicas that apply the same updates converge",
 		technique: "value-provenance rule on store writes: on the key-exists edge the stored value is a Merge of the current value (or the user update applied to it); delta shipped before ResetDelta; CFG ordering",
-		explanation: "Decides the merge-not-overwrite discipline of the replicator, a necessary condition of convergence: for every write r.store[k] = v reached with the key already present, v is current.Merge(incoming) (handleDelta, handleFullState), the accumulated merge of the local value with every peer reply (coordinatedRead starts from the local value and only ever replaces it by merged.Merge(peer), taking the peer value alone only when nothing is held), or the user's update applied to the current value (handleUpdate); an incoming value is stored as-is only on the key-absent edge. In handleUpdate the delta is extracted before ResetDelta and shipped after the store write. Convergence itself (over histories and delivery orders) is not decided.",
+		explanation: "Decides the merge-not-overwrite discipline of the replicator, a necessary condition of convergence: for every write r.store[k] = v reached with the key already present, v is current.Merge(incoming) (handleDelta, handleFullState), the accumulated merge of the local value with every peer reply (coordinatedRead starts from the local value and only ever replaces it by merged.Merge(peer), taking the peer value alone only when nothing is held), or the user's update applied to the current value (handleUpdate); an incoming value is stored as-is only on the key-absent edge. In handleUpdate the delta is extracted before ResetDelta and shipped after the store write. Convergence itself (over histories and delivery orders) is not decided. Added after seed C39a / F21: the delta of a type with a causal clock is its full state or lists every live dot its clock covers.",
 		assumptions: []string{"Merge is a join (see C38); delivery of deltas/anti-entropy eventually reaches every replica", "user Modify functions are inflationary"},
 		minObl:     10,
 		run:        runC39,
